@@ -133,6 +133,7 @@ type g04Opts struct {
 	junk   int
 	inter  uint64 // bit i: insert NUL/LF before scheme byte i
 	eqPad  int
+	dup    int // 1: the same attribute name, harmless, right before; 2: in a previous tag
 }
 
 var g04Junk = func() []string {
@@ -146,7 +147,7 @@ var g04Junk = func() []string {
 	}
 	return j
 }()
-var g04EqPad = [][2]string{{"", ""}, {" ", ""}, {"", " "}, {" ", " "}, {"\n", "\t"}}
+var g04EqPad = [][2]string{{"", ""}, {" ", ""}, {"", " "}, {" ", " "}, {"\n", "\t"}, {"\r", ""}, {"\f", ""}, {"\v", ""}, {"\t", ""}, {"\n", ""}, {"", "\r"}, {"", "\f"}, {"", "\v"}, {"", "\n"}, {"\r\n", ""}, {"", "\x00"}, {"\x00", ""}}
 
 func applyMask(s string, mask uint64) string {
 	b := []byte(s)
@@ -281,7 +282,18 @@ func g04Render(v g04Vec, o g04Opts) string {
 	}
 	pad := g04EqPad[o.eqPad%len(g04EqPad)]
 	sep := g04Seps[o.sep%len(g04Seps)]
-	s := p.text + sep + name + pad[0] + "=" + pad[1] + q + val + q
+	dup := ""
+	if v.kind == "url" || v.kind == "indirect" {
+		switch o.dup {
+		case 1:
+			dup = name + "=x "
+		case 2:
+			if p.needGT {
+				dup = name + "=x>t</a><a "
+			}
+		}
+	}
+	s := p.text + sep + dup + name + pad[0] + "=" + pad[1] + q + val + q
 	if p.needGT || o.end%2 == 0 {
 		s += ">"
 	}
@@ -325,9 +337,16 @@ func genC04(w *core.Worker, u core.Unit, emit func(s, meta string)) {
 			case j < np+len(g04Seps)+len(g04Quotes)+4+len(g04TagEnds):
 				o.end = j - np - len(g04Seps) - len(g04Quotes) - 4
 				o.prefix = (j * 7) % np
+			case j < np+len(g04Seps)+len(g04Quotes)+4+len(g04TagEnds)+len(g04EqPad):
+				o.eqPad = j - np - len(g04Seps) - len(g04Quotes) - 4 - len(g04TagEnds)
+				o.prefix = (j * 13) % np
+			case j < np+len(g04Seps)+len(g04Quotes)+4+len(g04TagEnds)+len(g04EqPad)+4:
+				o.dup = 1 + (j-np-len(g04Seps)-len(g04Quotes)-4-len(g04TagEnds)-len(g04EqPad))%2
+				o.prefix = (j * 3) % 5 // data-context prefixes carry a host tag
+				o.quote = j % len(g04Quotes)
 			default:
 				// NUL at each interior position of the name
-				o.nulAt = 1 + (j - np - len(g04Seps) - len(g04Quotes) - 4 - len(g04TagEnds))
+				o.nulAt = 1 + (j - np - len(g04Seps) - len(g04Quotes) - 4 - len(g04TagEnds) - len(g04EqPad) - 4)
 				if o.nulAt >= len(v.name) {
 					o.nulAt = 1 + o.nulAt%max(1, len(v.name)-1)
 				}
@@ -348,6 +367,9 @@ func genC04(w *core.Worker, u core.Unit, emit func(s, meta string)) {
 			if r.Intn(4) == 0 {
 				o.enc = 0
 			}
+			if r.Intn(6) == 0 {
+				o.dup = 1 + r.Intn(2)
+			}
 		}
 		emit(g04Render(v, o), v.kind+"|"+v.name+"|"+v.value)
 	}
@@ -361,7 +383,7 @@ func max(a, b int) int {
 }
 
 func g04SweepSize() uint64 {
-	axes := len(g04AttrPrefixes) + len(g04Seps) + len(g04Quotes) + 4 + len(g04TagEnds) + 24
+	axes := len(g04AttrPrefixes) + len(g04Seps) + len(g04Quotes) + 4 + len(g04TagEnds) + len(g04EqPad) + 4 + 24
 	return uint64(len(g04All())) * uint64(axes)
 }
 
